@@ -459,8 +459,11 @@ def check_property(prop_id, tier, seed, props):
         "violations": len(violations),
         "build_s": round(t_built - t_start, 2),
     }
-    os.makedirs(os.path.join(VERIF, "evidence"), exist_ok=True)
-    with open(os.path.join(VERIF, "evidence", prop_id + ".json"), "w") as f:
+    # evidence/<ID>.json describes runs against /repo itself; a run against a scratch copy
+    # (VERIF_REPO: sensitivity experiments, seeded changes) must not overwrite it
+    evdir = os.path.join(VERIF, "evidence") if os.path.realpath(REPO) == "/repo" else os.path.join(BUILD, prop_id, "evidence-scratch")
+    os.makedirs(evdir, exist_ok=True)
+    with open(os.path.join(evdir, prop_id + ".json"), "w") as f:
         json.dump(ev, f, indent=1)
         f.write("\n")
 
